@@ -150,3 +150,7 @@ func VerifC07_FrameAtomicity() {
 // Text /mpub bodies (shares the C10 harness): every non-empty newline-separated record of the
 // HTTP body becomes one message, byte for byte (CR, NUL, any value).
 func VerifC07_HTTPTextMpubBodies() { verifrt.Atomic(verifC10MpubText) }
+
+// Envelope on every channel: the topic pump hands every channel a message with the same id, body
+// and publish timestamp (real topic pump, 1-3 channels).
+func VerifC07_FanOutEnvelope() { verifTopicPumpFanOut() }
